@@ -154,7 +154,7 @@ type c15ByID struct {
 }
 
 func (s *c15ByID) Send(r *RowRequest) error { s.reqs <- r; return nil }
-func (s *c15ByID) CloseSend() error          { close(s.reqs); return nil }
+func (s *c15ByID) CloseSend() error         { close(s.reqs); return nil }
 func (s *c15ByID) Recv() (*Row, error) {
 	for r := range s.reqs {
 		if s.table != nil {
@@ -202,7 +202,7 @@ type c15ByIDRouter struct {
 }
 
 func (s *c15ByIDRouter) Send(r *RowRequest) error { s.reqs <- r; return nil }
-func (s *c15ByIDRouter) CloseSend() error          { close(s.reqs); return nil }
+func (s *c15ByIDRouter) CloseSend() error         { close(s.reqs); return nil }
 func (s *c15ByIDRouter) Recv() (*Row, error) {
 	for r := range s.reqs {
 		if t := s.src.tables[r.Collection]; t != nil {
